@@ -1,18 +1,19 @@
 #!/bin/bash
 # For every kept seeded change: apply it to /repo, run the property's own quick check for PRNG seeds 0 1 2, revert.
 # Prints one line per (seed dir, PRNG seed): number of VIOLATION lines and whether one of them carries a failing input.
+R=${BEZIER_REPO:-/repo}
 cd "$(dirname "$0")/.." || exit 2
-git -C /repo diff --quiet || { echo "/repo has uncommitted changes"; exit 2; }
+git -C "$R" diff --quiet || { echo "/repo has uncommitted changes"; exit 2; }
 for d in seeded/*/; do
   pid=$(python3 -c "import json;print(json.load(open('$d/meta.json'))['property'])")
-  git -C /repo apply "$PWD/$d/patch.diff" || { echo "$d patch does not apply"; continue; }
-  for sd in 0 1 2; do
+  git -C "$R" apply "$PWD/$d/patch.diff" || { echo "$d patch does not apply"; continue; }
+  for sd in ${MATRIX_SEEDS:-0 1 2}; do
     out=$(VERIF_SEED=$sd timeout 1800 ./check $pid 2>&1)
     n=$(echo "$out" | grep -c '^VIOLATION')
     c=$(echo "$out" | grep '^VIOLATION' | grep -vc 'no-failing-input-found')
     echo "$(basename $d) $pid prng=$sd violations=$n with_input=$c"
   done
-  git -C /repo checkout -- .
+  git -C "$R" checkout -- .
 done
 /venv/bin/python translate/py2v.py coq/Gen >/dev/null 2>&1; /venv/bin/python translate/f902v.py coq/Gen >/dev/null 2>&1
 echo "matrix done"
